@@ -5,8 +5,12 @@ use core::borrow::Borrow;
 use core::cell::UnsafeCell;
 use core::ops::{Deref, DerefMut};
 
-/// Maximum number of live entries of one map.
+/// Maximum number of live entries of one map (2 when the build is configured with `--cfg ocv_small`: harness groups that need
+/// no more entries run at a lower unwind bound, which also bounds the recursion CBMC sees in io::Error's drop glue).
+#[cfg(not(ocv_small))]
 pub const CAP: usize = 4;
+#[cfg(ocv_small)]
+pub const CAP: usize = 2;
 /// Scheduling-point site id of map operations.
 pub const SITE: u32 = 1;
 
@@ -175,10 +179,7 @@ impl<K, V> DashMap<K, V> {
     }
     fn check_unlocked(&self, i: usize) {
         let held = unsafe { (*self.guards.get())[i] };
-        assert!(
-            held == 0,
-            "dashmap: write to an entry while a reference to it is held by this thread (self-deadlock in the real crate)"
-        );
+        assert!(held == 0, "dashmap: write to an entry while a reference into the same map is held by this thread (self-deadlock in the real crate)");
     }
     pub fn iter(&self) -> Iter<'_, K, V> {
         verif_rt::yield_point(SITE);
